@@ -69,7 +69,8 @@ impl ResolvedCalendarFields {
 
 fn resolve_day(day: Option<u8>, is_year_month: bool) -> TemporalResult<u8> {
     if is_year_month {
-        Ok(day.unwrap_or(1))
+        // A year-month ignores any `day` field: its reference day is the first of the month.
+        Ok(1)
     } else {
         day.ok_or(TemporalError::r#type().with_message("Required day field is empty."))
     }
